@@ -26,9 +26,10 @@ type iterParams struct {
 	HaltAt  int    `json:"halt_at"` // step from which the halter may call Halt, -1 = no halter
 	Timer   int    `json:"timer"`   // step from which the hard-limit timer may fire
 	Horizon int    `json:"horizon"`
-	Slow    int    `json:"slow,omitempty"`  // creation index of a goroutine that is held back (1 search, 2 quit-cancel, 3 consumer)
-	Until   int    `json:"until,omitempty"` // ... until this many steps after the halt instant
+	Slow    int    `json:"slow,omitempty"`    // creation index of a goroutine that is held back (1 search, 2 quit-cancel, 3 consumer)
+	Until   int    `json:"until,omitempty"`   // ... until this many steps after the halt instant
 	HaltOn  int    `json:"halt_on,omitempty"` // the consumer itself calls Halt as soon as it has received this depth (a GUI that stops on seeing depth N)
+	Quiesce bool   `json:"quiesce,omitempty"` // captures-only quiescence at the leaves instead of the static evaluation
 	Clean   bool   `json:"clean,omitempty"`   // C12: when Halt returns the board is back in its initial state and the table is never touched again
 }
 
@@ -55,7 +56,13 @@ func (w *watchTT) Write(h board.ZobristHash, bound search.Bound, ply, depth int,
 func (w *watchTT) Size() uint64  { return w.inner.Size() }
 func (w *watchTT) Used() float64 { return w.inner.Used() }
 
-func iterRoot() search.Search {
+func iterRoot(quiesce ...bool) search.Search {
+	if len(quiesce) > 0 && quiesce[0] {
+		// captures-only quiescence at the leaves: a mate delivered by a capture just beyond the horizon is seen
+		return search.AlphaBeta{Eval: search.Quiescence{Explore: func(ctx context.Context, b *board.Board) (board.MovePriorityFn, board.MovePredicateFn) {
+			return search.MVVLVA, func(m board.Move) bool { return m.IsCapture() }
+		}, Eval: search.Leaf{Eval: eval.Material{}}}}
+	}
 	return search.AlphaBeta{Eval: search.Leaf{Eval: eval.Material{}}}
 }
 
@@ -76,22 +83,23 @@ var directMemo = map[string]directResult{}
 
 // direct returns what a direct fixed-depth search of the root reports (memoised: it is a pure
 // function of the root and the depth).
-func direct(fenStr string, depth int) (eval.Score, []board.Move) {
-	key := fmt.Sprintf("%s|%d", fenStr, depth)
+func direct(fenStr string, depth int, quiesce ...bool) (eval.Score, []board.Move) {
+	q := len(quiesce) > 0 && quiesce[0]
+	key := fmt.Sprintf("%s|%d|%v", fenStr, depth, q)
 	if r, ok := directMemo[key]; ok {
 		return r.score, r.moves
 	}
-	score, moves := directSearch(fenStr, depth)
+	score, moves := directSearch(fenStr, depth, q)
 	directMemo[key] = directResult{score, moves}
 	return score, moves
 }
 
-func directSearch(fenStr string, depth int) (eval.Score, []board.Move) {
+func directSearch(fenStr string, depth int, q bool) (eval.Score, []board.Move) {
 	b, err := fen.NewBoard(fenStr)
 	if err != nil {
 		panic(err)
 	}
-	_, score, moves, _ := iterRoot().Search(context.Background(), &search.Context{Alpha: eval.NegInfScore, Beta: eval.InfScore, TT: search.NoTranspositionTable{}}, b, depth)
+	_, score, moves, _ := iterRoot(q).Search(context.Background(), &search.Context{Alpha: eval.NegInfScore, Beta: eval.InfScore, TT: search.NoTranspositionTable{}}, b, depth)
 	return score, moves
 }
 
@@ -155,7 +163,7 @@ func buildIter(params json.RawMessage) explore.Scenario {
 					haltReturned = true
 				}
 			}
-			l := &searchctl.Iterative{Root: iterRoot()}
+			l := &searchctl.Iterative{Root: iterRoot(p.Quiesce)}
 			h, out := l.Launch(ctx, b, tt, eval.Random{}, opt)
 			vs.GoNamed("consumer", func() {
 				for {
@@ -218,7 +226,7 @@ func buildIter(params json.RawMessage) explore.Scenario {
 				if pv.Depth < 1 {
 					return "C15/" + what + "-depth0", fmt.Sprintf("%s reports depth %d", what, pv.Depth)
 				}
-				score, moves := direct(p.FEN, pv.Depth)
+				score, moves := direct(p.FEN, pv.Depth, p.Quiesce)
 				if pv.Score != score {
 					return "C15/" + what + "-score", fmt.Sprintf("%s %s but a direct depth-%d search returns %v", what, pvText(pv), pv.Depth, score)
 				}
@@ -252,7 +260,7 @@ func buildIter(params json.RawMessage) explore.Scenario {
 			// where the analysis must end by itself (0 = never)
 			stopDepth := 0
 			for d := 1; d <= 6; d++ {
-				score, _ := direct(p.FEN, d)
+				score, _ := direct(p.FEN, d, p.Quiesce)
 				if md, ok := score.MateDistance(); ok && int(md) <= d {
 					stopDepth = d
 					break
@@ -307,13 +315,23 @@ func init() {
 	Builders["iter"] = buildIter
 	Defs["C15"] = &Def{
 		ID:   "C15",
-		Rule: "real searchctl.Iterative.Launch on small roots (K v K, fortress, checkmated, stalemated, mate-in-1 net) x depth limit {none,1,2,3} x table {off,on} x time control {none, given}; threads: the iterative-deepening goroutine, its quit-cancel goroutine, a consumer, a halter whose Halt becomes enabled at scheduler step k for a grid of k over the whole run (halt instant enumerated), the hard-limit timer (release step enumerated), a consumer that itself calls Halt as soon as it has received depth 1 or 2 next to that timer (two callers of Halt; timer at every step of a grid and as a lazy thread), the search / quit-cancel / consumer goroutine in turn held back for 60 steps after the halt instant (slow-thread dimension) and, with a time control, every time.Since answered 'short' or 'longer than any limit' (environment deviation); all schedules within the deviation bound. Oracle: reported depths strictly increasing; every reported and every Halt-returned (score, PV with table off) equals a direct fixed-depth search; ends by itself exactly at the depth limit or at the first depth with a forced mate within the depth, never earlier, never without a reason; Halt returns a completed iteration >= 1 at least as deep as everything reported before it was requested. Plus the complete grid of TimeControl.Limits (sequential). distinct_nontrivial = distinct (depth stream, halt result) classes",
+		Rule: "real searchctl.Iterative.Launch on small roots (K v K, fortress, checkmated, stalemated, mate-in-1 net) x depth limit {none,1,2,3} x table {off,on} x time control {none, given}; the same with captures-only quiescence at the leaves on roots where a capture mates just beyond the horizon; threads: the iterative-deepening goroutine, its quit-cancel goroutine, a consumer, a halter whose Halt becomes enabled at scheduler step k for a grid of k over the whole run (halt instant enumerated), the hard-limit timer (release step enumerated), a consumer that itself calls Halt as soon as it has received depth 1 or 2 next to that timer (two callers of Halt; timer at every step of a grid and as a lazy thread), the search / quit-cancel / consumer goroutine in turn held back for 60 steps after the halt instant (slow-thread dimension) and, with a time control, every time.Since answered 'short' or 'longer than any limit' (environment deviation); all schedules within the deviation bound. Oracle: reported depths strictly increasing; every reported and every Halt-returned (score, PV with table off) equals a direct fixed-depth search; ends by itself exactly at the depth limit or at the first depth with a forced mate within the depth, never earlier, never without a reason; Halt returns a completed iteration >= 1 at least as deep as everything reported before it was requested. Plus the complete grid of TimeControl.Limits (sequential). distinct_nontrivial = distinct (depth stream, halt result) classes",
 		Gen: func(tier string) []explore.Scenario {
 			roots := []string{kP1, kFortress, kMated, kStale, "7k/8/5K2/6Q1/8/8/8/8 b - - 0 1",
 				"7k/8/6K1/8/8/8/8/R7 b - - 0 1",  // the side to move is mated in 2: the analysis must end at depth 3
 				"6k1/8/6K1/8/8/8/8/R7 w - - 0 1", // the side to move mates in 1: must end at depth 2
 			}
 			var out []explore.Scenario
+			// quiescence at the leaves: a depth-d search can return a mate of distance d+1 (delivered by a
+			// capture just beyond the horizon); the analysis must go on to depth d+1, where it is within the depth
+			for _, f := range []string{"k7/pp6/8/1Q6/8/8/6B1/4K3 b - - 0 1", "4k3/6b1/8/8/1q6/8/PP6/K7 w - - 0 1", kP1} {
+				for _, limit := range []int{0, 1, 2, 3} {
+					q := iterParams{FEN: f, Limit: limit, Quiesce: true, HaltAt: -1, Timer: 1 << 30, Horizon: 500}
+					out = append(out, iterScenario(q))
+					q.HaltAt = -2
+					out = append(out, iterScenario(q))
+				}
+			}
 			for _, f := range roots {
 				for _, limit := range []int{0, 1, 2, 3} {
 					for _, table := range []bool{false, true} {
